@@ -453,6 +453,16 @@ def parse_log(log_path):
             line = line.rstrip("\n")
             if not line:
                 continue
+            try:
+                cur = _parse_log_line(line, cur, out)
+            except (ValueError, IndexError):
+                continue  # a line cut in two by the harness's log cap (or by a dying process)
+    return out
+
+
+def _parse_log_line(line, cur, out):
+    if True:
+        if True:
             t = line[0]
             f_ = line.split(" ")
             if t in "SOE" and cur is not None:
@@ -466,7 +476,7 @@ def parse_log(log_path):
                         cur["events"].append(("E", int(f_[1]), unhex(f_[2])))
                 except (ValueError, IndexError):
                     pass
-                continue
+                return cur
             if t == "B":
                 cur = {"events": [], "result": None, "steps": None, "calls": [], "pos": None, "ctx": None,
                        "notes": 0}
@@ -474,7 +484,7 @@ def parse_log(log_path):
                     cur["thread"], cur["t0"], cur["t1"] = int(f_[4]), int(f_[5]), int(f_[6])
                 out.setdefault(f_[1], {}).setdefault(f_[2], []).append(cur)
             elif cur is None:
-                continue
+                return cur
             elif t == "S":
                 cur["events"].append(("S", f_[1], int(f_[2])))
             elif t == "O":
@@ -514,4 +524,4 @@ def parse_log(log_path):
                 cur["pos"] = (int(f_[1]), int(f_[2]))
             elif t == "U":
                 cur["ctx"] = int(f_[1])
-    return out
+            return cur
